@@ -176,7 +176,12 @@ func runC05(r *Run) {
 			mechs = append(mechs, "kerberos")
 		}
 		if local {
-			mechs = append(mechs, "local")
+			// "basic" is the accepted alias of "local"
+			if mask%2 == 1 {
+				mechs = append(mechs, "basic")
+			} else {
+				mechs = append(mechs, "local")
+			}
 		}
 		if ntlmOn {
 			mechs = append(mechs, "ntlm")
@@ -480,6 +485,52 @@ func runC05(r *Run) {
 			r.Count("tunnel-user:" + strings.Join(mechs, "+") + ":alice")
 			if st != "da590780" || dialed {
 				r.Violation("c05-user", "the tunnel carries another user name than the one the backend confirmed (another user's host entry is allowed)", fmt.Sprintf("mechanisms %s: Basic login as alice, channel to 127.0.0.1:%d → status %s dialed=%v\n", strings.Join(mechs, "+"), hostPort, st, dialed))
+			}
+		}
+		if local {
+			// two requests of one user overlap at a slow backend: the wrong password must not ride on the
+			// verification of the right one (and the right one must still get in)
+			fa.mu.Lock()
+			fa.slow = map[string]time.Duration{"alice:wonderland": 350 * time.Millisecond}
+			fa.mu.Unlock()
+			type res struct {
+				up     bool
+				status int
+			}
+			rightCh, wrongCh := make(chan res, 1), make(chan res, 2)
+			go func() {
+				c, err := p.dial()
+				if err != nil {
+					rightCh <- res{}
+					return
+				}
+				defer c.Close()
+				rr := rawRequest(c, bufio.NewReader(c), "RDG_OUT_DATA", hostHdr, []string{"Basic " + b64("alice:wonderland")}, true)
+				rightCh <- res{rr.upgraded, rr.status}
+			}()
+			time.Sleep(80 * time.Millisecond)
+			for _, wrong := range []string{"alice:wrong", "alice:"} {
+				go func(cred string) {
+					c, err := p.dial()
+					if err != nil {
+						wrongCh <- res{}
+						return
+					}
+					defer c.Close()
+					rr := rawRequest(c, bufio.NewReader(c), "RDG_OUT_DATA", hostHdr, []string{"Basic " + b64(cred)}, true)
+					wrongCh <- res{rr.upgraded, rr.status}
+				}(wrong)
+			}
+			w1, w2, rt := <-wrongCh, <-wrongCh, <-rightCh
+			fa.mu.Lock()
+			fa.slow = nil
+			fa.mu.Unlock()
+			r.Count("concurrent-basic:" + strings.Join(mechs, "+"))
+			rep := fmt.Sprintf("mechanisms: %s; the backend takes 350 ms to confirm alice:wonderland; 80 ms after that request two more arrive for alice with wrong passwords\nright password: upgraded=%v status %d; wrong passwords: upgraded=%v status %d, upgraded=%v status %d\n", strings.Join(mechs, "+"), rt.up, rt.status, w1.up, w1.status, w2.up, w2.status)
+			if w1.up || w2.up {
+				r.Violation("c05-reached", "the tunnel handler was reached without confirmed credentials of an enabled scheme", rep)
+			} else if !rt.up {
+				r.Violation("c05-refused", "confirmed credentials did not reach the tunnel handler", rep)
 			}
 		}
 		ntlmExchange("NTLM", "alice", "wonderland", true, false, "ntlm-right")
